@@ -22,6 +22,10 @@ def _c16_call_find(obj, pat, many):
     return obj.find(pat, many=many)
 
 
+def _c16_call_find_all(obj, pat):
+    return obj.find_all(pat)
+
+
 @config
 class Cfg:
     a: f32
